@@ -150,11 +150,22 @@ theorem append_underscore_cancel (a b : String) (h : a ++ "_" = b ++ "_") : a = 
   simp [String.toList_append] at this
   exact String.toList_inj.mp this
 
+/-- **exp2python's `keyword_list[]` covers Python**: every hard keyword of the Python that runs the check
+(`keyword.kwlist`, regenerated) that stepcode's EXPRESS scanner does not reserve (`keywords[]` of lexact.c, regenerated) — i.e.
+every Python keyword a schema can use as an identifier — is in the regenerated `keyword_list[]`.  Three independently
+regenerated lists; does not build when one is missing (`with` before fixes/C18-23). -/
+theorem C18_keyword_list_covers_python : ∀ k ∈ Spec.pyKeywords, k ∈ pythonKeywords := by decide
+
+/-- The specification's list is what it should be on this interpreter and scanner: the 21 keywords below, no more. -/
+theorem C18_spec_keywords_are :
+    Spec.pyKeywords = ["assert", "async", "await", "break", "class", "continue", "def", "del", "elif", "except", "finally",
+      "global", "import", "is", "lambda", "nonlocal", "pass", "raise", "try", "with", "yield"] := by decide
+
 /-- No emitted identifier is a Python keyword: for every EXPRESS identifier `n`, `pyName n` is not one of the Python
 keywords that are legal EXPRESS identifiers (`Spec.pyKeywords`) — whichever of the two comparisons `is_python_keyword`
 uses (regenerated `escapesStems`).  Depends on the regenerated `keyword_list[]`. -/
 theorem C18_names_legal (n : String) : pyName n ∉ Spec.pyKeywords := by
-  have h2 : ∀ k ∈ Spec.pyKeywords, k ∈ pythonKeywords := by decide
+  have h2 : ∀ k ∈ Spec.pyKeywords, k ∈ pythonKeywords := C18_keyword_list_covers_python
   have h3 : ∀ k ∈ Spec.pyKeywords, stem k = k := by decide
   have h4 : ∀ k ∈ Spec.pyKeywords, k.toList.getLast? ≠ some '_' := by decide
   have hl : (n ++ "_").toList.getLast? = some '_' := by simp [String.toList_append]
